@@ -4,27 +4,36 @@
    Strings are byte strings over the tokens of LinesOps (1 CR, 2 LF, 3 'a',
    4 5 = the two bytes of U+00E9, 6 SP, 7 ':', 8 NUL, 100 + b other bytes).
 
-   One trace = one message case.  A trace line is a record
-   [k, hp, p, hc, c, a, w]:
+   One trace = one case: one command (or a few in a row) taken through the
+   code.  A trace line is a record [k, hp, p, hc, c, a, w]:
      k="msg"     the code built a message object: hp = it has a prefix, p =
                  the prefix, hc = its command is not None, c = the command
-                 (str(command)), a = the sequence of its arguments
-     k="reject"  the code refused (constructor or serialiser raised) - always
-                 allowed
+                 (str(command)), a = the sequence of its arguments.  Starts
+                 the block of one command.
+     k="reject"  the code refused (constructor or serialiser raised; the IRC
+                 component wrote nothing for the command) - always allowed
      k="wire"    w = bytes(message)
-     k="parsed"  the repository's own reader (splitLines + parsemsg) produced,
-                 from one line of w: prefix p (hp: a prefix was found), command
-                 c (hc: not None), arguments a
-     k="parse_error"  the repository's parser raised on a line of w
+     k="sent"    the command event was fired at a real IRC component and the
+                 component fired a `write` event with data w (what is handed
+                 to the transport)
+     k="parsed"  the repository's own reader produced, from one line of the
+                 preceding wire / sent bytes: prefix p (hp: a prefix was
+                 found), command c (hc: not None), arguments a.  After "wire"
+                 the reader is splitLines + parsemsg on w alone; after "sent"
+                 it is a real Line component at the peer, fed every written
+                 chunk of the trace in order (so it holds unterminated rests
+                 across commands), + parsemsg on each `line` event.
+     k="parse_error"  the repository's parser raised on such a line
      k="end"     end of the case
    Unused fields are FALSE / <<>>.
 
-   Clauses:
-     C18.no_terminator  the serialised message does not end in CR LF
+   Clauses (the same for bytes(message) and for what the component writes):
+     C18.no_terminator  the bytes do not end in CR LF
      C18.extra_line     CR or LF before the terminator (a value injected a
-                        line break), or a second line came out of the reader
-     C18.roundtrip      parsing the serialised message does not give back the
-                        message's prefix, command and arguments
+                        line break), a second line came out of the reader, or
+                        the component wrote twice for one command
+     C18.roundtrip      reading the bytes back does not give the message's
+                        prefix, command and arguments (or gives nothing)
    Leniency (slack of the statement): an absent prefix and an empty prefix are
    the same thing.                                                          *)
 EXTENDS Integers, Sequences
@@ -46,25 +55,36 @@ OneLine(w)    == Terminated(w) /\ \A i \in 1..(Len(w) - 2) : w[i] # CR /\ w[i] #
 SameMsg(m, ln) == m.p = ln.p /\ m.hc = ln.hc /\ m.c = ln.c /\ m.a = ln.a
 
 M0 == [hp |-> FALSE, p |-> <<>>, hc |-> FALSE, c |-> <<>>, a |-> <<>>]
-P0 == [m |-> M0, wired |-> FALSE, nparsed |-> 0]
+P0 == [m |-> M0, wired |-> FALSE, nparsed |-> 0, nsent |-> 0]
+
+(* a read-back phase (after "wire" or "sent") that ends without one parsed line *)
+Unread(Q) == Q.wired /\ Q.nparsed = 0
+
+Bytes(w) == IF ~Terminated(w) THEN "C18.no_terminator"
+            ELSE IF ~OneLine(w) THEN "C18.extra_line"
+            ELSE ""
 
 Fail(Q, ln) ==
-  CASE ln.k = "wire" ->
-         IF ~Terminated(ln.w) THEN "C18.no_terminator"
-         ELSE IF ~OneLine(ln.w) THEN "C18.extra_line"
-         ELSE ""
+  CASE ln.k = "wire" -> IF Unread(Q) THEN "C18.roundtrip" ELSE Bytes(ln.w)
+    [] ln.k = "sent" ->
+         IF Unread(Q) THEN "C18.roundtrip"
+         ELSE IF Q.nsent >= 1 THEN "C18.extra_line"
+         ELSE Bytes(ln.w)
     [] ln.k = "parsed" ->
          IF Q.nparsed >= 1 THEN "C18.extra_line"
          ELSE IF ~SameMsg(Q.m, ln) THEN "C18.roundtrip"
          ELSE ""
     [] ln.k = "parse_error" -> "C18.roundtrip"
-    [] ln.k = "end" -> IF Q.wired /\ Q.nparsed = 0 THEN "C18.roundtrip" ELSE ""
+    [] ln.k \in {"msg", "reject", "end"} -> IF Unread(Q) THEN "C18.roundtrip" ELSE ""
     [] OTHER -> ""
 
 Apply(Q, ln) ==
-  CASE ln.k = "msg" -> [Q EXCEPT !.m = [hp |-> ln.hp, p |-> ln.p, hc |-> ln.hc, c |-> ln.c, a |-> ln.a]]
-    [] ln.k = "wire" -> [Q EXCEPT !.wired = TRUE]
+  CASE ln.k = "msg" -> [m |-> [hp |-> ln.hp, p |-> ln.p, hc |-> ln.hc, c |-> ln.c, a |-> ln.a],
+                        wired |-> FALSE, nparsed |-> 0, nsent |-> 0]
+    [] ln.k = "wire" -> [Q EXCEPT !.wired = TRUE, !.nparsed = 0]
+    [] ln.k = "sent" -> [Q EXCEPT !.wired = TRUE, !.nparsed = 0, !.nsent = @ + 1]
     [] ln.k \in {"parsed", "parse_error"} -> [Q EXCEPT !.nparsed = @ + 1]
+    [] ln.k = "reject" -> [Q EXCEPT !.wired = FALSE, !.nparsed = 0]
     [] OTHER -> Q
 
 RECURSIVE Run(_, _, _)
